@@ -29,17 +29,17 @@ pub struct C16;
 
 /// K per transform family, in units of max|diff| / (sqrt(N) * |c|_2).
 const K_TABLE: [(&str, f64); 11] = [
-    ("hornuss", 1.0e-3),
-    ("dct2x2", 1.0e-3),
-    ("dct4x4", 1.0e-3),
-    ("dct4x8/8x4", 1.0e-3),
-    ("afv", 1.0e-3),
-    ("dct8x8", 1.0e-3),
-    ("dct16", 1.0e-3),
-    ("dct32", 1.0e-3),
-    ("dct64", 1.0e-3),
-    ("dct128", 1.0e-3),
-    ("dct256", 1.0e-3),
+    ("hornuss", 2.0e-7),
+    ("dct2x2", 4.0e-7),
+    ("dct4x4", 6.0e-7),
+    ("dct4x8/8x4", 1.2e-6),
+    ("afv", 6.0e-7),
+    ("dct8x8", 2.0e-6),
+    ("dct16", 8.0e-6),
+    ("dct32", 1.0e-5),
+    ("dct64", 2.0e-5),
+    ("dct128", 3.0e-5),
+    ("dct256", 6.0e-5),
 ];
 fn k_ref(t: usize) -> f64 {
     let f = family_name(t);
@@ -51,7 +51,7 @@ fn k_paths(t: usize) -> f64 {
 }
 const ABS_FLOOR: f64 = 1e-12;
 /// |<r_a, r_b> - expected| <= K_GRAM * N * (|r_a| + |r_b|) for unit impulse responses.
-const K_GRAM: f64 = 1.0e-3;
+const K_GRAM: f64 = 1.0e-7;
 
 // ---------------------------------------------------------------------------
 // Run statistics (for the evidence file).
@@ -61,6 +61,7 @@ const Z3: [AtomicU64; 3] = [Z; 3];
 /// max observed ratio |diff| / (sqrt(N) ||c||) per type: [generic-ref, arch-ref, generic-arch]
 static MAX_RATIO: [[AtomicU64; 3]; NUM_TYPES] = [Z3; NUM_TYPES];
 static MAX_GRAM: [AtomicU64; NUM_TYPES] = [Z; NUM_TYPES];
+static MAX_RATIO1: [[AtomicU64; 3]; NUM_TYPES] = [Z3; NUM_TYPES];
 static BLOCKS: AtomicU64 = AtomicU64::new(0);
 static IMPULSE_POSITIONS: AtomicU64 = AtomicU64::new(0);
 static TIER: AtomicU8 = AtomicU8::new(0);
@@ -463,6 +464,7 @@ fn verify_block(o: &mut Outcome, g: &GridSpec, outs: &[[Vec<f32>; 3]; 2], b: &Pl
         let tol = k * scale + ABS_FLOOR;
         if scale > 0.0 && d.is_finite() {
             note_max(&MAX_RATIO[b.t][which], d / scale);
+            note_max(&MAX_RATIO1[b.t][which], d / eff.iter().map(|x| x.abs()).sum::<f64>());
         }
         if !(d <= tol) {
             fail(o, format!("{}:{}", ti.name, name), format!("|{:.9e} - {:.9e}| = {:.3e} > tol {:.3e} (ratio to sqrt(N)|c| = {:.3e}) at {}", a[i], bb[i], d, tol, d / scale, ctx(i)));
@@ -997,6 +999,8 @@ impl Check for C16 {
             let r: Vec<f64> = (0..3).map(|k| f64::from_bits(MAX_RATIO[t][k].load(Ordering::Relaxed))).collect();
             let gr = f64::from_bits(MAX_GRAM[t].load(Ordering::Relaxed));
             per_type.insert(TYPES[t].name.into(), json!({"generic_vs_definition": r[0], "arch_vs_definition": r[1], "generic_vs_arch": r[2], "gram": gr}));
+            let r1: Vec<f64> = (0..3).map(|k| f64::from_bits(MAX_RATIO1[t][k].load(Ordering::Relaxed))).collect();
+            eprintln!("L1 {} {:.3e} {:.3e} {:.3e}", TYPES[t].name, r1[0], r1[1], r1[2]);
             let e = fam.entry(family_name(t)).or_insert([0.0; 4]);
             for k in 0..3 {
                 e[k] = e[k].max(r[k]);
